@@ -2,7 +2,7 @@
    [fields ds line] are the maximal runs of non-delimiter characters of a line - what the generator's regular
    expression matches and what it numbers 1, 2, ...; [sub_field] is re.sub with _SubHelper.replace. *)
 From Coq Require Import ZArith List Bool String Ascii.
-From OMV Require Import Base.Val C29.Model C29.Proofs.
+From OMV Require Import Base.Val C29.Model C29.Proofs C29.ProofsLex.
 Import ListNotations.
 Open Scope string_scope. Open Scope Z_scope.
 
@@ -75,4 +75,76 @@ Theorem C29_mixed_exp_sign :
   parse_line cfg_found " " "x -2e-05 y" = inr [TStr "x"; TInt (-2); TStr "e-05"; TStr "y"].
 Proof. exact mixed_exp_sign. Qed.
 Print Assumptions C29_mixed_exp_sign.
+
+(* ---- the parser's lexer on what the generator writes (ProofsLex.v) ---- *)
+
+(* str(int) is modelled by print_int (compared with Python's text on every run); its digits are the number. *)
+Theorem C29_print_nat_spec :
+  forall n, 0 <= n ->
+    digits_val (print_nat n) 0 = n /\ str_all is_digit (print_nat n) = true /\ print_nat n <> "".
+Proof. exact print_nat_spec. Qed.
+Print Assumptions C29_print_nat_spec.
+
+(* A digit run with an optional minus sign, followed by anything that is not a digit, "." or an exponent letter,
+   is one integer token: every grammar variant (as found / repaired), every delimiter set, every digit string. *)
+Theorem C29_lex_one_digits :
+  forall c ds (neg : bool) d rest,
+    d <> "" -> str_all is_digit d = true -> int_follow rest = true ->
+    lex_one c ds ((if neg then "-" else "") ++ d ++ rest) =
+    Some (TInt (if neg then - digits_val d 0 else digits_val d 0), rest).
+Proof. exact lex_one_digits. Qed.
+Print Assumptions C29_lex_one_digits.
+
+(* For EVERY integer z: the text written for z lexes back to the single token TInt z. *)
+Theorem C29_lex_one_print_int :
+  forall c ds z rest, int_follow rest = true -> lex_one c ds (print_int z ++ rest) = Some (TInt z, rest).
+Proof. exact lex_one_print_int. Qed.
+Print Assumptions C29_lex_one_print_int.
+
+(* Every plain word (first character not a digit, sign, point or the initial of a special literal; all characters
+   word characters of the delimiter set) lexes to the single string token with that text. *)
+Theorem C29_lex_one_word :
+  forall c ds c0 w rest,
+    word_start c0 = true -> str_all (textchar ds) (String c0 w) = true -> word_follow ds rest = true ->
+    lex_one c ds (String c0 w ++ rest) = Some (TStr (String c0 w), rest).
+Proof. exact lex_one_word. Qed.
+Print Assumptions C29_lex_one_word.
+
+(* The lexer on a whole canonical line: exactly the tokens of its fields, in order (nothing after a newline). *)
+Theorem C29_lex_segments :
+  forall c ds l ks tail fuel,
+    canon ds l = true -> reads c ds l ks -> stop_tail ds tail -> (List.length ks < fuel)%nat ->
+    lex c ds fuel (unsegs l ++ tail) = ks.
+Proof. exact lex_segments. Qed.
+Print Assumptions C29_lex_segments.
+
+(* WRITE THEN PARSE: generator and parser composed.  For every grammar variant, delimiter set, template line whose
+   fields read as the tokens ks, field number k and written text that reads as kn: the parser's tokens of the
+   generated line are ks with the k-th replaced by kn. *)
+Theorem C29_write_then_parse :
+  forall c ds line k new kn ks fuel,
+    nonempty new = true -> str_all (fun x => negb (gsep ds x)) new = true ->
+    reads_as c ds new kn -> reads c ds (segs ds line) ks -> (List.length ks < fuel)%nat ->
+    lex c ds fuel (sub_field ds k new line) = replk k kn ks 0.
+Proof. exact write_then_parse. Qed.
+Print Assumptions C29_write_then_parse.
+
+(* ... for every integer (delimiters without letters, digits, "." and "-") ... *)
+Theorem C29_write_then_parse_int :
+  forall c ds line k z ks fuel,
+    ds_ok ds = true -> mem_ascii "-" ds = false ->
+    reads c ds (segs ds line) ks -> (List.length ks < fuel)%nat ->
+    lex c ds fuel (sub_field ds k (print_int z) line) = replk k (TInt z) ks 0.
+Proof. exact write_then_parse_int. Qed.
+Print Assumptions C29_write_then_parse_int.
+
+(* ... and for every plain word. *)
+Theorem C29_write_then_parse_word :
+  forall c ds line k c0 w ks fuel,
+    ds_ok ds = true -> word_start c0 = true -> str_all (textchar ds) (String c0 w) = true ->
+    str_all (fun x => negb (gsep ds x)) (String c0 w) = true ->
+    reads c ds (segs ds line) ks -> (List.length ks < fuel)%nat ->
+    lex c ds fuel (sub_field ds k (String c0 w) line) = replk k (TStr (String c0 w)) ks 0.
+Proof. exact write_then_parse_word. Qed.
+Print Assumptions C29_write_then_parse_word.
 
